@@ -661,6 +661,9 @@ def run_case(ctx, drv, case):
         case_align(ctx, drv, case)
     elif s == "rehist":
         case_rehist(ctx, case)
+    elif s == "session":
+        from props import c15_session
+        c15_session.case_session(ctx, drv, _drv(), case)
     else:
         raise ValueError(s)
 
@@ -682,6 +685,10 @@ def run(ctx):
         rng = ctx.rng.fork(4)
         for i in range(ctx.n(60, 600)):
             run_case(ctx, drv, gen_rehist(rng.fork(i), i))
+        from props import c15_session
+        rng = ctx.rng.fork(5)
+        for i in range(ctx.n(120, 1200)):
+            run_case(ctx, drv, c15_session.gen_session(rng.fork(i), i))
     finally:
         drv.close()
 
@@ -691,7 +698,7 @@ def replay(ctx, rep):
     case = rep.get("case") or (rep.get("correspondence_disagreements") or [{}])[0].get("case")
     if not case:
         return False
-    case = {k: v for k, v in case.items() if k not in ("image", "failing_step")}
+    case = {k: v for k, v in case.items() if k not in ("image", "failing_step") and not k.startswith("_")}
     if case.get("stream") == "signature":
         check_signatures(ctx)
         return True
